@@ -151,7 +151,7 @@ func boolInt(b bool) int {
 }
 
 func c03(run *ev.Run) int {
-	run.SetRule("bodies = valid request and response bodies recorded from connect-go peers (3 protocols x 2 codecs x 4 kinds x gzip on/off x {0,1,2,3 messages} x {success, error}); segmentations = all 2^(n-1) compositions for bodies up to the bound (quick 12, thorough 16 bytes), else 1-byte reads, every split inside each 5-byte prefix, payload boundary +-1, halving, seeded random; each with EOF on the last data read and EOF on a separate read, alternately with and without a read limit configured on the receiver; oracle: outcome (messages, error code+text, metadata) == outcome of one-piece delivery, which must equal what the application supplied; distinct by (body, segmentation class)")
+	run.SetRule("bodies = valid request and response bodies recorded from connect-go peers (3 protocols x 2 codecs x 4 kinds x gzip on/off x {0,1,2,3 messages} x {success, error}); segmentations = all 2^(n-1) compositions for bodies up to the bound (quick 12, thorough 16 bytes), else 1-byte reads, every split inside each 5-byte prefix, payload boundary +-1, halving, seeded random; each with EOF on the last data read and EOF on a separate read, alternately with and without a read limit configured on the receiver; plus passes where the receiver rejects messages locally under a tiny read limit (client: error responses; handler: client/bidi streams, reading on after each rejection); oracle: outcome (messages, error code+text, metadata) == outcome of one-piece delivery, which must equal what the application supplied; distinct by (body, segmentation class)")
 	bound := run.Pick(12, 16)
 	nrandom := run.Pick(25, 400)
 	small := buildCorpus(corpusSpec{protos: svc.Protocols, codecs: []string{"proto"}, kinds: svc.Kinds, gzips: []bool{false},
@@ -249,6 +249,38 @@ func c03(run *ev.Run) int {
 					run.Violation(key+"/req/segmentation", "handler outcome depends on how the request body is segmented",
 						map[string]any{"case": rec.Name, "body_hex": fmt.Sprintf("%x", rec.Ex.ReqBody), "chunks": seg, "eof_with_data": eofWith, "one_piece": base2, "segmented": s})
 					return
+				}
+			}
+		}
+		// ---- request direction, receiver rejecting messages locally and reading
+		// on: with a small read limit the handler refuses some messages of the
+		// stream, skips them and keeps receiving; which messages it then sees
+		// must not depend on how the transport cut the body either.
+		if (rec.Kind == svc.ClientStream || rec.Kind == svc.Bidi) && len(rec.Sends) >= 3 && i >= len(small) {
+			for _, limit := range []int{8, 60} {
+				keepGoing := func() *svc.Program {
+					p := &svc.Program{}
+					for k := 0; k < len(rec.Sends)+2; k++ {
+						p.Steps = append(p.Steps, svc.Step{Op: "recv"})
+					}
+					p.Steps = append(p.Steps, svc.Step{Op: "sendsum"})
+					return p
+				}
+				lim := connect.WithReadMaxBytes(limit)
+				h0, r0 := rec.replayRequest(&wire.ScriptedBody{Data: rec.Ex.ReqBody}, keepGoing(), lim)
+				b0 := handlerOutcome(h0, r0, true)
+				for _, seg := range segs {
+					for _, eofWith := range []bool{false, true} {
+						hl, res := rec.replayRequest(&wire.ScriptedBody{Data: rec.Ex.ReqBody, Chunks: seg, EOFWithData: eofWith}, keepGoing(), lim)
+						run.Eval(fmt.Sprintf("%s|req-local-reject-%d|%s", rec.Name, limit, segClass(seg, len(rec.Ex.ReqBody))))
+						run.Count("replays.request", 1)
+						run.Count("replays.request.local_reject", 1)
+						if s := handlerOutcome(hl, res, true); s != b0 {
+							run.Violation(key+"/req/segmentation-local-reject", "handler outcome (rejecting over-limit messages and reading on) depends on how the request body is segmented",
+								map[string]any{"case": rec.Name, "read_limit": limit, "chunks": trimInts(seg), "eof_with_data": eofWith, "one_piece": b0, "segmented": s})
+							return
+						}
+					}
 				}
 			}
 		}
